@@ -12,6 +12,7 @@ use std::collections::BTreeMap;
 
 pub mod c03;
 pub mod c04;
+pub mod c15;
 
 #[derive(Clone, Copy, Debug, PartialEq, Serialize, Deserialize)]
 pub enum Tier {
@@ -29,6 +30,9 @@ pub struct Scenario {
     pub timing: bool,
     /// uses the effect backend: explore backend faults / completion order
     pub io: bool,
+    /// backend faults that are part of the scenario itself (applied to every run, reference included)
+    #[serde(default)]
+    pub fixed_faults: BTreeMap<u64, FaultKind>,
     /// property-specific expectation data (the host-side model's verdicts)
     pub expect: serde_json::Value,
     /// a hash of the scenario's shape (family + structure, not constants)
@@ -71,6 +75,14 @@ pub trait Property: Sync {
         Vec::new()
     }
     fn rule_text(&self) -> &'static str;
+    /// scenarios of this property deliberately contain lines the parser/compiler rejects
+    fn allows_rejected_lines(&self) -> bool {
+        false
+    }
+    /// probe counters derived from a finished, judged run
+    fn run_probes(&self, _scn: &Scenario, _r: &RunResult) -> BTreeMap<String, u64> {
+        BTreeMap::new()
+    }
     fn real_vs_stub(&self) -> Vec<&'static str> {
         vec![
             "real: quiver-core Executor/Process/builtins/compatibility/optimisation/serde",
@@ -122,6 +134,7 @@ pub fn default_cfg(rng: &mut Rng, scn: &Scenario) -> RunCfg {
 pub fn reference_spec(scn: &Scenario, seed: u64) -> RunSpec {
     let mut cfg = RunCfg::reference();
     cfg.files = scn.files.clone();
+    cfg.faults = scn.fixed_faults.clone();
     RunSpec { cfg, ops: scn.ops.clone(), modules: scn.modules.clone(), sched: SchedSpec::fair(), seed, replay: None, est_len: 100, tail_bound: 0 }
 }
 
@@ -179,6 +192,12 @@ pub fn all_violations(prop: &dyn Property, scn: &Scenario, refdata: Option<&RefD
         EndState::Hang => v.push(Violation::new(id, "hang", "quiescent-without-result", format!("system quiescent after {} decisions but the client is still waiting (op {})", r.steps, r.outs.len()), r.steps)),
         EndState::TailBound => v.push(Violation::new(id, "liveness", "fair-tail-bound-exceeded", format!("fair fault-free tail ran {} decisions without completing", r.tail_steps), r.steps)),
         _ => {}
+    }
+    if !prop.allows_rejected_lines()
+        && let Some(bad) = r.outs.iter().find(|o| matches!(o, crate::client::Out::CompileError(_) | crate::client::Out::ParseError))
+    {
+        // a generator bug, not a property violation: reported as a harness error (exit 2)
+        return vec![Violation::new("HARNESS", "scenario-rejected", "generator-bug", format!("generated scenario was rejected by the front end: {:?}", bad), r.steps)];
     }
     if matches!(r.end, EndState::Completed) {
         v.extend(prop.judge(scn, refdata, r));
@@ -277,6 +296,9 @@ pub fn run_case(prop: &dyn Property, base_seed: u64, case: u64, tier: Tier, repl
         let mut vr = Rng::new(vseed);
         let mut cfg = prop.draw_cfg(&mut vr, &scn);
         cfg.nworkers = cfg.nworkers.min(prop.max_workers());
+        if !scn.fixed_faults.is_empty() {
+            cfg.faults = scn.fixed_faults.clone();
+        }
         cfg.clock_offsets.truncate(cfg.nworkers);
         let sched = SchedSpec::draw(&mut vr, cfg.nworkers, scn.timing, scn.est_len);
         let tail_bound = 50 * scn.est_len * (cfg.nworkers as u64 + 3) + 2000;
@@ -285,6 +307,9 @@ pub fn run_case(prop: &dyn Property, base_seed: u64, case: u64, tier: Tier, repl
         let spec = RunSpec { cfg, ops: scn.ops.clone(), modules: scn.modules.clone(), sched, seed: vseed, replay: None, est_len: scn.est_len, tail_bound };
         let r = run_spec(prop, &scn, spec.clone(), false);
         absorb(&mut rep, &scn, &r, nworkers);
+        for (k, n) in prop.run_probes(&scn, &r) {
+            *rep.probes.entry(k).or_insert(0) += n;
+        }
         let vs = all_violations(prop, &scn, refdata.as_ref(), &r);
         if let Some(viol) = vs.first() {
             let (mspec, mres, mviol) = minimise(prop, &scn, refdata.as_ref(), &spec, &r, viol);
@@ -513,6 +538,7 @@ pub fn lookup(id: &str) -> Option<Box<dyn Property>> {
     match id {
         "C03" => Some(Box::new(c03::C03)),
         "C04" => Some(Box::new(c04::C04)),
+        "C15" => Some(Box::new(c15::C15)),
         _ => None,
     }
 }
